@@ -28,15 +28,21 @@ import (
 )
 
 // chain builds i0 -> p0 -> p1 ... -> o0, every processor adds 1.
-func chain(k int) *bondmachine.Bondmachine {
+// With cmd the processors also execute r2v, an opcode that hands a command to the VM's
+// command dispatcher goroutine (no emulation driver is attached in a plain simulation).
+func chain(k int, cmd bool) *bondmachine.Bondmachine {
 	var ms []*procbuilder.Machine
 	var bonds [][2]string
 	for p := 0; p < k; p++ {
-		m, err := gen.NewMachine(8, 1, 1, 1, 0, 2, "ha", []string{"i2rw", "inc", "r2owa", "j"})
+		ops, prog := []string{"i2rw", "inc", "r2owa", "j"}, []string{"i2rw r0 i0", "inc r0", "r2owa r0 o0", "j 0"}
+		if cmd {
+			ops, prog = append(ops, "r2v"), []string{"i2rw r0 i0", "inc r0", "r2v r0 3", "r2owa r0 o0", "j 0"}
+		}
+		m, err := gen.NewMachine(8, 1, 1, 1, 0, 3, "ha", ops)
 		if err != nil {
 			panic(err)
 		}
-		if err := gen.Assemble(m, []string{"i2rw r0 i0", "inc r0", "r2owa r0 o0", "j 0"}); err != nil {
+		if err := gen.Assemble(m, prog); err != nil {
 			panic(err)
 		}
 		ms = append(ms, m)
@@ -127,8 +133,12 @@ func main() {
 		batches = []int{1, 8, 64, 256, 1024}
 	}
 	for _, e := range entries {
-		for _, k := range sizes {
-			bm := chain(k)
+		for ki, k := range append(append([]int{}, sizes...), sizes...) {
+			cmd := ki >= len(sizes)
+			bm := chain(k, cmd)
+			if cmd {
+				k += 100 // keeps the case keys distinct: 10k = k processors that also issue VM commands
+			}
 			for _, conc := range []int{1, 8} {
 				type obs struct {
 					N             int            `json:"n"`
